@@ -36,7 +36,12 @@ enum YieldKind
 constexpr int MAXT = 320; // ordinary runs use 1-4 simulated threads, a few C09 runs several hundred
 constexpr uint64_t STEP_BUDGET = 2000000; // far above any legitimate run (< 50k); a livelock, not a long record
 
-extern Counter f_preempt, f_stall, p_contended, f_clockjump, f_lock_timeout;
+extern Counter f_preempt, f_stall, p_contended, f_clockjump, f_lock_timeout, f_eintr;
+
+// POSIX semaphores of the code under test are simulated too (sem_* are interposed by symbol in
+// logsim.cpp); the scheduler parks its own threads on the real ones
+int real_sem_wait(sem_t* s);
+int real_sem_post(sem_t* s);
 
 struct Scheduler
 {
@@ -147,7 +152,7 @@ struct Scheduler
         self_id() = i;
         for (;;)
         {
-            sem_wait(&t[i].go);
+            real_sem_wait(&t[i].go);
             if (t[i].body)
             {
                 t[i].body();
@@ -262,7 +267,7 @@ struct Scheduler
             if (!all_done)
                 die("DEADLOCK: no runnable thread, some blocked");
             current = -1;
-            sem_post(&main_sem);
+            real_sem_post(&main_sem);
             return; // finished thread goes back to its pool loop
         }
         // stall probe: somebody with work in flight has not run for a long time
@@ -279,9 +284,9 @@ struct Scheduler
             f_preempt++;
         }
         current = next;
-        sem_post(&t[next].go);
+        real_sem_post(&t[next].go);
         if (!finished)
-            sem_wait(&t[me].go);
+            real_sem_wait(&t[me].go);
     }
 
     void yield(int kind)
@@ -542,6 +547,64 @@ struct Scheduler
         return 0;
     }
 
+    // ---- POSIX semaphores (sem_wait / sem_trywait / sem_timedwait / sem_post)
+    static constexpr int SEMBASE = 200000;
+    std::vector<int> sem_value; // indexed like the mutex table; -1 = not yet seen as a semaphore
+    unsigned eintr_num = 0;     // run knob: a blocked sem_wait is interrupted with probability n/8 per wait
+    int sem_id(const void* sm, int initial)
+    {
+        int id = mutex_id(sm);
+        NoFault nf;
+        if (sem_value.size() <= static_cast<size_t>(id))
+            sem_value.resize(static_cast<size_t>(id) + 1, -1);
+        if (sem_value[static_cast<size_t>(id)] < 0)
+            sem_value[static_cast<size_t>(id)] = initial;
+        return id;
+    }
+    // returns 0, or -1 with *err set (EINTR 4, EAGAIN 11, ETIMEDOUT 110)
+    int sem_down(const void* sm, int initial, int mode /*0 wait, 1 try, 2 timed*/, int* err)
+    {
+        int me = self_id();
+        int id = sem_id(sm, initial);
+        yield(mode == 1 ? YK_TRYLOCK : YK_LOCK);
+        while (sem_value[static_cast<size_t>(id)] == 0)
+        {
+            if (mode == 1)
+            {
+                *err = 11;
+                return -1;
+            }
+            p_contended++;
+            timeout_state = splitmix64(timeout_state);
+            if (eintr_num && timeout_state % 8 < eintr_num)
+            {
+                // a signal handler ran while the thread was waiting (legal at any time; callers retry)
+                f_eintr++;
+                yield(YK_LOCK);
+                *err = 4;
+                return -1;
+            }
+            if (mode == 2 && timeout_num && (timeout_state >> 8) % 8 < timeout_num)
+            {
+                f_lock_timeout++;
+                yield(YK_LOCK);
+                *err = 110;
+                return -1;
+            }
+            block_on(me, SEMBASE + id);
+        }
+        --sem_value[static_cast<size_t>(id)];
+        return 0;
+    }
+    int sem_up(const void* sm, int initial)
+    {
+        int id = sem_id(sm, initial);
+        ++sem_value[static_cast<size_t>(id)];
+        wake_waiters(SEMBASE + id);
+        yield(YK_UNLOCK);
+        return 0;
+    }
+
     // std::this_thread::yield() inside a spin loop: somebody else must get to run
     void spin_yield()
     {
@@ -567,8 +630,8 @@ struct Scheduler
         t[next].last_run_step = steps;
         ++switches;
         current = next;
-        sem_post(&t[next].go);
-        sem_wait(&t[me].go);
+        real_sem_post(&t[next].go);
+        real_sem_wait(&t[me].go);
     }
     bool in_sim() const
     {
@@ -597,6 +660,7 @@ struct Scheduler
         mtx_depth.clear();
         rw_readers.clear();
         rw_reader_ids.clear();
+        sem_value.clear();
         now_ns = 1000000000;
         elapsed_ns = 0;
         unlock_not_owner = false;
@@ -621,8 +685,8 @@ struct Scheduler
             current = first;
             t[first].last_run_step = steps;
             trace.add(static_cast<uint64_t>(first));
-            sem_post(&t[first].go);
-            sem_wait(&main_sem);
+            real_sem_post(&t[first].go);
+            real_sem_wait(&main_sem);
         }
         active = false;
     }
